@@ -48,3 +48,9 @@ package assertiontree
 //@ ensures handles-IncDecStmt (=> (is node *ast.IncDecStmt) (= (calls "fmt.Errorf") 0))
 //@ ensures handles-EmptyStmt (=> (is node *ast.EmptyStmt) (= (calls "fmt.Errorf") 0))
 //@ ensures handles-DeferStmt (=> (is node *ast.DeferStmt) (= (calls "fmt.Errorf") 0))
+
+//@ -- C07: the round watchdog returns only while the round count is within 2*blocks^2 (it panics beyond), which is the
+//@ -- variant bound of the fixpoint loops that call it on every round
+//@ func checkCFGFixedPointRuntime
+//@ prop C07
+//@ ensures returns-only-within-the-round-bound (<= currRound (* 2 (* numBlocks numBlocks)))
